@@ -2,6 +2,7 @@ import ALV.Common.Json
 import ALV.Model.C04
 import ALV.Spec.C04
 import ALV.Spec.C04Hist
+import ALV.Model.C04Cx
 namespace ALV.Driver.C04
 open ALV ALV.J ALV.C04
 
@@ -19,6 +20,10 @@ open ALV ALV.J ALV.C04
             sample) and "out" is left out of "model": the caller compares with "spec", which is
             the same list by theorem filterCall_eq_specCall
   entry "compile":  b, a : dense lists, zero  →  {"ir": IR}
+  entries "gcall" / "gcascade" / "gcompile": the same over the Gaussian rationals ℚ(i) (`GRat`): a number
+                    travels as a bare rational or as [re, im]; it is printed bare when im = 0.
+  call shapes:      in "call" / "gcall" the fields "den", "mem", "zero" may be null or absent: the argument
+                    was left out (`ZFilter(num)`, `filt(seq)`); model = `filterCallD`, spec = `specCallD`.
   entry "cascade":  num, den, zero, xs as for "call"; mems : [mem …] one per stage (null = None):
                     f(f(…f(xs, m₁)…), m_k) with ONE filter object
   entry "hist":  ops : [["nums",c,[q…]] | ["coefs",c,[[power,q]…]] | ["build",f,n,d] |
@@ -30,36 +35,64 @@ open ALV ALV.J ALV.C04
     generates at that call, the dense coefficients and the private memory list)
 -/
 
-def getPair (j : Json) : Except String (Int × Rat) := do
+/-- how numbers of type `α` travel -/
+structure Codec (α : Type) where
+  get : Json → Except String α
+  put : α → Json
+  ofNat : Nat → α
+
+def ratCodec : Codec Rat := ⟨getRat, ratToJson, fun n => (n : Rat)⟩
+
+def getG (j : Json) : Except String GRat :=
   match j with
-  | Json.arr [k, v] => pure (← getInt k, ← getRat v)
+  | Json.arr [r, i] => do pure ⟨← getRat r, ← getRat i⟩
+  | _ => do pure ⟨← getRat j, 0⟩
+
+def gToJson (g : GRat) : Json :=
+  if g.im = 0 then ratToJson g.re else Json.arr [ratToJson g.re, ratToJson g.im]
+
+def gaussCodec : Codec GRat := ⟨getG, gToJson, fun n => ⟨(n : Rat), 0⟩⟩
+
+section generic
+variable {α : Type} [Add α] [Mul α] [Sub α] [Neg α] [Div α] [OfNat α 0] [OfNat α 1] [DecidableEq α]
+variable (cd : Codec α)
+
+def getPairOf (j : Json) : Except String (Int × α) := do
+  match j with
+  | Json.arr [k, v] => pure (← getInt k, ← cd.get v)
   | _ => throw s!"expected [power, coeff], got {j.compress}"
 
-def getMem (j : Json) : Except String (Mem Rat) := do
-  match optField j "mem" with
+/-- a field that may be left out (absent or null) -/
+def optNull (j : Json) (name : String) : Option Json :=
+  match optField j name with
+  | some Json.null => none
+  | r => r
+
+def getMemOf (j : Json) : Except String (Mem α) := do
+  match optNull j "mem" with
   | none => pure Mem.none
   | some m =>
     let kind ← getStr (← field m "kind")
     match kind with
-    | "iter" => pure (Mem.iter (← getList getRat (← field m "vals")))
+    | "iter" => pure (Mem.iter (← getList cd.get (← field m "vals")))
     | "gen" =>
-      let base ← getRat (← field m "base")
-      let step ← getRat (← field m "step")
-      pure (Mem.gen (fun (i : Nat) => base + (i : Rat) * step))
+      let base ← cd.get (← field m "base")
+      let step ← cd.get (← field m "step")
+      pure (Mem.gen (fun (i : Nat) => base + cd.ofNat i * step))
     | "callable" =>
       let form ← getStr (← field m "form")
       match form with
       | "fixed" =>
-        let vals ← getList getRat (← field m "vals")
+        let vals ← getList cd.get (← field m "vals")
         pure (Mem.callable (fun _ => vals))
       | "arith" =>
-        let base ← getRat (← field m "base")
-        let step ← getRat (← field m "step")
-        pure (Mem.callable (fun n => (List.range n).map (fun (i : Nat) => base + (i : Rat) * step)))
+        let base ← cd.get (← field m "base")
+        let step ← cd.get (← field m "step")
+        pure (Mem.callable (fun n => (List.range n).map (fun (i : Nat) => base + cd.ofNat i * step)))
       | "arithrev" =>
-        let base ← getRat (← field m "base")
-        let step ← getRat (← field m "step")
-        pure (Mem.callable (fun n => (List.range n).map (fun (i : Nat) => base + ((n - 1 - i : Nat) : Rat) * step)))
+        let base ← cd.get (← field m "base")
+        let step ← cd.get (← field m "step")
+        pure (Mem.callable (fun n => (List.range n).map (fun (i : Nat) => base + cd.ofNat (n - 1 - i) * step)))
       | _ => throw s!"unknown callable form {form}"
     | _ => throw s!"unknown memory kind {kind}"
 
@@ -69,23 +102,128 @@ def varJson : Var → List Json
 
 /-- canonical atoms: ["var",v,i] | ["neg",v,i] | ["mul",coef,v,i]; "-{c} * m" is printed with its
 folded constant `-c` (the Python parser cannot tell `-3 * m1` from `{-3} * m1` either) -/
-def atomJson : Atom Rat → Json
+def atomJsonOf : Atom α → Json
   | .var v => Json.arr (Json.str "var" :: varJson v)
   | .neg v => Json.arr (Json.str "neg" :: varJson v)
-  | .mul c v => Json.arr (Json.str "mul" :: ratToJson c :: varJson v)
-  | .negMul c v => Json.arr (Json.str "mul" :: ratToJson (-c) :: varJson v)
+  | .mul c v => Json.arr (Json.str "mul" :: cd.put c :: varJson v)
+  | .negMul c v => Json.arr (Json.str "mul" :: cd.put (-c) :: varJson v)
 
-def gainJson : Gain Rat → Json
+def gainJsonOf : Gain α → Json
   | .one => Json.arr [Json.str "one"]
   | .negOne => Json.arr [Json.str "negone"]
-  | .div g => Json.arr [Json.str "div", ratToJson g]
+  | .div g => Json.arr [Json.str "div", cd.put g]
 
-def irJson : IR Rat → Json
-  | .constLoop z => Json.mkObj [("kind", Json.str "const"), ("zero", ratToJson z)]
+def irJsonOf : IR α → Json
+  | .constLoop z => Json.mkObj [("kind", Json.str "const"), ("zero", cd.put z)]
   | .loop nm nd sum gain shifts => Json.mkObj [
       ("kind", Json.str "loop"), ("nm", natToJson nm), ("nd", natToJson nd),
-      ("sum", arr atomJson sum), ("gain", gainJson gain),
+      ("sum", arr (atomJsonOf cd) sum), ("gain", gainJsonOf cd gain),
       ("shifts", arr (fun (ts : Var × Var) => Json.arr (varJson ts.1 ++ varJson ts.2)) shifts)]
+
+def putList (l : List α) : Json := arr cd.put l
+
+/-- a constructor argument: [[power, coeff] …] (dict / Poly / enumerate of a list) | {"number": q} |
+{"list": [q …]} -/
+def getCoefArg (j : Json) : Except String (CoefArg α) := do
+  match j with
+  | Json.arr _ => (CoefArg.dict <$> getList (getPairOf cd) j)
+  | _ =>
+    match optField j "number" with
+    | some c => (CoefArg.number <$> cd.get c)
+    | none => (CoefArg.list <$> getList cd.get (← field j "list"))
+
+def errJson' (e : Err) : Json := Json.mkObj [("err", Json.str e.name)]
+
+/-- one call; the arguments "den", "mem", "zero" may be left out (call shapes) -/
+def handleCall (j : Json) : Except String Json := do
+  let num0 ← match optNull j "num" with
+    | none => pure CoefArg.none.pairs
+    | some n => (CoefArg.pairs <$> getCoefArg cd n)
+  let denO ← match optNull j "den" with
+    | none => pure none
+    | some d => ((fun a => some (CoefArg.pairs a)) <$> getCoefArg cd d)
+  -- `ZFilter(LinearFilter(num, den), c)`: the cast with a scalar divisor
+  let castO ← match optNull j "castdiv" with
+    | none => pure none
+    | some c => (some <$> cd.get c)
+  let numE : Except Err (List (Int × α)) := match castO with
+    | none => .ok num0
+    | some c => castDiv num0 c
+  match numE with
+  | .error e => pure <| Json.mkObj [("model", errJson' e), ("spec", errJson' e)]
+  | .ok num =>
+  let raw := match optField j "raw" with
+    | some (Json.bool true) => true
+    | _ => false
+  let memO ← match optNull j "mem" with
+    | none => pure none
+    | some _ => (some <$> getMemOf cd j)
+  let zeroO ← match optNull j "zero" with
+    | none => pure none
+    | some z => (some <$> cd.get z)
+  let xs ← getList cd.get (← field j "xs")
+  let fast := match optField j "fast" with
+    | some (Json.bool true) => true
+    | _ => false
+  let den := denO.getD [(0, 1)]
+  let mem := memO.getD Mem.none
+  let zero := zeroO.getD 0
+  -- model: every intermediate stage is shown, so that the tie sees where a difference enters
+  let model : Json :=
+    match (if raw then callRaw num den mem zero (if fast then [] else xs)
+           else filterCallD num denO memO zeroO (if fast then [] else xs)) with
+    | .error e => errJson' e
+    | .ok out =>
+      match (if raw then .ok (mkPoly num, mkPoly den) else normalise (mkPoly num) (mkPoly den)) with
+      | .error e => errJson' e
+      | .ok (n, d) =>
+        let a := dense d
+        let b := dense n
+        Json.mkObj ((if fast then [] else [("out", putList cd out)]) ++
+                    [("ir", irJsonOf cd (compile b a zero)),
+                     ("b", putList cd b), ("a", putList cd a),
+                     ("mem", putList cd (memoryOf zero (a.length - 1) mem))])
+  let spec : Json :=
+    match (if raw then specCallRaw num den mem zero xs else specCallD num denO memO zeroO xs) with
+    | .error e => errJson' e
+    | .ok out => Json.mkObj [("out", putList cd out)]
+  pure <| Json.mkObj [("model", model), ("spec", spec)]
+
+/-- the same filter applied to its own output, one memory per stage -/
+def handleCascade (j : Json) : Except String Json := do
+  let num ← getList (getPairOf cd) (← field j "num")
+  let den ← getList (getPairOf cd) (← field j "den")
+  let zero ← cd.get (← field j "zero")
+  let xs ← getList cd.get (← field j "xs")
+  let mems ← getList (fun m => getMemOf cd (Json.mkObj [("mem", m)])) (← field j "mems")
+  let model : Json :=
+    match cascadeWith (fun m ys => filterCall num den m zero ys) mems xs with
+    | .error e => errJson' e
+    | .ok out =>
+      match normalise (mkPoly num) (mkPoly den) with
+      | .error e => errJson' e
+      | .ok (n, d) =>
+        Json.mkObj [("out", putList cd out), ("ir", irJsonOf cd (compile (dense n) (dense d) zero)),
+                    ("b", putList cd (dense n)), ("a", putList cd (dense d))]
+  let spec : Json :=
+    match cascadeWith (fun m ys => specCall num den m zero ys) mems xs with
+    | .error e => errJson' e
+    | .ok out => Json.mkObj [("out", putList cd out)]
+  pure <| Json.mkObj [("model", model), ("spec", spec)]
+
+def handleCompile (j : Json) : Except String Json := do
+  let b ← getList cd.get (← field j "b")
+  let a ← getList cd.get (← field j "a")
+  let zero ← cd.get (← field j "zero")
+  pure <| Json.mkObj [("ir", irJsonOf cd (compile b a zero))]
+
+end generic
+
+def getPair (j : Json) : Except String (Int × Rat) := getPairOf ratCodec j
+def getMem (j : Json) : Except String (Mem Rat) := getMemOf ratCodec j
+def atomJson (a : Atom Rat) : Json := atomJsonOf ratCodec a
+def gainJson (g : Gain Rat) : Json := gainJsonOf ratCodec g
+def irJson (ir : IR Rat) : Json := irJsonOf ratCodec ir
 
 def errJson (e : Err) : Json := Json.mkObj [("err", Json.str e.name)]
 
@@ -146,64 +284,16 @@ def histSpecJson : HState Rat (SFilt Rat) (SStrm Rat) → List (HOp Rat) → Lis
 
 def handle (entry : String) (j : Json) : Except String Json := do
   match entry with
-  | "call" =>
-    let num ← getList getPair (← field j "num")
-    let den ← getList getPair (← field j "den")
-    let mem ← getMem j
-    let zero ← getRat (← field j "zero")
-    let xs ← getList getRat (← field j "xs")
-    let fast := match optField j "fast" with
-      | some (Json.bool true) => true
-      | _ => false
-    -- model: every intermediate stage is shown, so that the tie sees where a difference enters
-    let model : Json :=
-      match normalise (mkPoly num) (mkPoly den) with
-      | .error e => errJson e
-      | .ok (n, d) =>
-        match call n d mem zero (if fast then [] else xs) with
-        | .error e => errJson e
-        | .ok out =>
-          let a := dense d
-          let b := dense n
-          Json.mkObj ((if fast then [] else [("out", rats out)]) ++
-                      [("ir", irJson (compile b a zero)),
-                       ("b", rats b), ("a", rats a),
-                       ("mem", rats (memoryOf zero (a.length - 1) mem))])
-    let spec : Json :=
-      match specCall num den mem zero xs with
-      | .error e => errJson e
-      | .ok out => Json.mkObj [("out", rats out)]
-    pure <| Json.mkObj [("model", model), ("spec", spec)]
+  | "call" => handleCall ratCodec j
+  | "gcall" => handleCall gaussCodec j
   | "hist" =>
     let ops ← getList getOp (← field j "ops")
     pure <| Json.mkObj [("model", Json.arr (histModelJson HState.empty ops)),
                         ("spec", Json.arr (histSpecJson HState.empty ops))]
-  | "cascade" =>
-    -- the same filter applied to its own output, one memory per stage
-    let num ← getList getPair (← field j "num")
-    let den ← getList getPair (← field j "den")
-    let zero ← getRat (← field j "zero")
-    let xs ← getList getRat (← field j "xs")
-    let mems ← getList (fun m => getMem (Json.mkObj [("mem", m)])) (← field j "mems")
-    let model : Json :=
-      match cascadeWith (fun m ys => filterCall num den m zero ys) mems xs with
-      | .error e => errJson e
-      | .ok out =>
-        match normalise (mkPoly num) (mkPoly den) with
-        | .error e => errJson e
-        | .ok (n, d) =>
-          Json.mkObj [("out", rats out), ("ir", irJson (compile (dense n) (dense d) zero)),
-                      ("b", rats (dense n)), ("a", rats (dense d))]
-    let spec : Json :=
-      match cascadeWith (fun m ys => specCall num den m zero ys) mems xs with
-      | .error e => errJson e
-      | .ok out => Json.mkObj [("out", rats out)]
-    pure <| Json.mkObj [("model", model), ("spec", spec)]
-  | "compile" =>
-    let b ← getList getRat (← field j "b")
-    let a ← getList getRat (← field j "a")
-    let zero ← getRat (← field j "zero")
-    pure <| Json.mkObj [("ir", irJson (compile b a zero))]
+  | "cascade" => handleCascade ratCodec j
+  | "gcascade" => handleCascade gaussCodec j
+  | "compile" => handleCompile ratCodec j
+  | "gcompile" => handleCompile gaussCodec j
   | _ => throw s!"C04: unknown entry {entry}"
 
 end ALV.Driver.C04
